@@ -75,6 +75,8 @@ def check(ctx):
     ctx.rule("C02.B6", "unpack: one getitem call per index in range(length) on the node produced by the builtin unpack, which raises unless exactly `length` items were drawn (evaluated for lengths 0..3)")
     ctx.rule("C02.B8", "schedule independence of the value: premises re-evaluated under this id - a call starts only after its dependencies succeeded (enqueue-after-success, atomic readiness counter, counting agreement), every dequeued node is processed once, queue kinds neither lose nor duplicate")
     ctx.assume("behaviour of list/tuple/set/dict/islice and of user functions is trusted; schedule independence of values follows from C01 + C04 + per-call slots")
+    from .engineeval import rule_engine_evaluated
+    ctx.run(rule_engine_evaluated, "C02.B8", None, ("order", "once", "complete", "containment"))
     er = E.discover(m)
     rr = R.discover(m, er)
     ctx.run(E.rule_enqueue_after_success, "C02.B8", er)
